@@ -8,7 +8,7 @@ use vcommon::report::*;
 fn main() {
     let run = Run::from_args("C16", "exploration");
     if let Some(v) = run.load_replay() {
-        let b = unhex(v["case"]["input"].as_str().unwrap());
+        let b = dec_input(&v["case"]["input"]);
         let mut outs = Vec::new();
         for _ in 0..2 {
             let mut s = Sink::new();
@@ -189,6 +189,29 @@ fn main() {
     });
     sink.merge(sm);
     sink.bump("many-record buffers", nmany as u64);
+    // buffers whose total size crosses 10 MiB (the defragmenter's constant), 2^24 [and 2^25]: full-size records
+    {
+        let counts: Vec<usize> = if thorough { vec![639, 640, 641, 1023, 1024, 1025, 2047, 2048, 2049] } else { vec![640, 641, 1024, 1025] };
+        let items: Vec<(usize, bool)> = counts.iter().flat_map(|&n| [(n, false), (n, true)]).collect();
+        let sh = par_run(run.threads.min(4), items.len(), |i, sink| {
+            let (n, dtls) = items[i];
+            let mut b: Vec<u8> = Vec::with_capacity(n * 16400 + 16);
+            for k in 0..n {
+                if dtls {
+                    b.extend([0x17, 0xfe, 0xfd, 0, 0, 0, 0, 0, 0, (k >> 8) as u8, k as u8, 0x40, 0x00]);
+                } else {
+                    b.extend([0x17, 0x03, 0x03, 0x40, 0x00]);
+                }
+                let at = b.len();
+                b.resize(at + 16384, (k % 251) as u8);
+            }
+            check(&b, sink);
+            b.extend([0x17, 0x03, 0x03, 0x00, 0x09, 1, 2]);
+            check(&b, sink);
+            sink.bump("buffers above 10 MiB", 1);
+        });
+        sink.merge(sh);
+    }
     // complete records at and above the length cap (the multi-record parsers must refuse exactly what
     // the single-record parser refuses), alone, after valid records and followed by more data
     let mut caps: Vec<Vec<u8>> = Vec::new();
